@@ -26,6 +26,7 @@ RULE += (' Also: body failures of every standard type incl. instances of Excepti
 RULE += (' Also: class managers and lease copies are falsy.')
 RULE += (' Also: managers that are awaitable as well (being awaited is reported).')
 RULE += (' Also: managers swallowing every BaseException the body raises.')
+RULE += (' Also: bodies raising subclasses of GeneratorExit / StopAsyncIteration.')
 ASSUMPTIONS = ["class-based ContextDecorator instances are shared between calls (documented default of _recreate_cm)"]
 EXHAUSTIVE_SUBSPACES = 'every scenario counted in scenarios_explored_exhaustively had ALL its interleavings executed'
 EXHAUSTIVE = {"quick": False, "thorough": False}
